@@ -38,7 +38,7 @@ impl LibOpts {
             max_notes: 6,
             subdirs: true,
             cross_dir_inline: false,
-            updir: false,
+            updir: true,
             md_suffix: true,
             crlf: false,
             profile: Profile::clean(vec![]),
